@@ -161,6 +161,9 @@ struct Scenario {
     n_threads: usize,
     ops: Vec<Vec<u8>>,
     pct: bool,
+    /// the object under test is assembled with TapTree::leaf / TapTree::combine + Tr::new instead of
+    /// being parsed (both construction paths must give the same object)
+    built: bool,
 }
 
 fn gen_tree(r: &mut Rng, shape: u64, n_leaf_ids: usize, next: &mut usize) -> Tree {
@@ -202,6 +205,45 @@ fn gen_tree(r: &mut Rng, shape: u64, n_leaf_ids: usize, next: &mut usize) -> Tre
             }
             t
         }
+        6 => {
+            // large balanced tree (64..256 leaves), optionally hung under a short chain
+            fn bal(d: u32, r: &mut Rng, leaf: &mut dyn FnMut(&mut Rng) -> Tree) -> Tree {
+                if d == 0 {
+                    leaf(r)
+                } else {
+                    Tree::Node(Box::new(bal(d - 1, r, leaf)), Box::new(bal(d - 1, r, leaf)))
+                }
+            }
+            let d = r.range(6, 8) as u32;
+            let mut t = bal(d, r, &mut leaf);
+            for _ in 0..r.below(4) {
+                let l = leaf(r);
+                t = if r.below(2) == 0 { Tree::Node(Box::new(t), Box::new(l)) } else { Tree::Node(Box::new(l), Box::new(t)) };
+            }
+            t
+        }
+        7 => {
+            // large random shape, 100..400 leaves
+            fn rnd(budget: &mut i32, depth: u32, r: &mut Rng, leaf: &mut dyn FnMut(&mut Rng) -> Tree) -> Tree {
+                if *budget <= 1 || depth > 60 || r.below(12) == 0 {
+                    leaf(r)
+                } else {
+                    *budget -= 1;
+                    Tree::Node(Box::new(rnd(budget, depth + 1, r, leaf)), Box::new(rnd(budget, depth + 1, r, leaf)))
+                }
+            }
+            let mut b = r.range(100, 400) as i32;
+            let mut t = rnd(&mut b, 0, r, &mut leaf);
+            // spend what is left of the budget as a spine so that the tree really is large
+            while b > 1 && depth_of(&t) < 110 {
+                let mut sub_b = b.min(40);
+                let before = sub_b;
+                let sub = rnd(&mut sub_b, 1, r, &mut leaf);
+                b -= (before - sub_b) + 1;
+                t = if r.below(2) == 0 { Tree::Node(Box::new(t), Box::new(sub)) } else { Tree::Node(Box::new(sub), Box::new(t)) };
+            }
+            t
+        }
         _ => {
             // random shape with up to 24 leaves
             fn rnd(budget: &mut i32, depth: u32, r: &mut Rng, leaf: &mut dyn FnMut(&mut Rng) -> Tree) -> Tree {
@@ -218,6 +260,52 @@ fn gen_tree(r: &mut Rng, shape: u64, n_leaf_ids: usize, next: &mut usize) -> Tre
     }
 }
 
+fn depth_of(t: &Tree) -> u32 {
+    // iterative: chains may be deep
+    let mut best = 0;
+    let mut stack = vec![(t, 0u32)];
+    while let Some((n, d)) = stack.pop() {
+        match n {
+            Tree::Leaf(_) => best = best.max(d),
+            Tree::Node(l, r) => {
+                stack.push((l, d + 1));
+                stack.push((r, d + 1));
+            }
+        }
+    }
+    best
+}
+
+fn count_leaves(t: &Tree) -> usize {
+    let mut n = 0;
+    let mut stack = vec![t];
+    while let Some(x) = stack.pop() {
+        match x {
+            Tree::Leaf(_) => n += 1,
+            Tree::Node(l, r) => {
+                stack.push(l);
+                stack.push(r);
+            }
+        }
+    }
+    n
+}
+
+fn build_taptree(t: &Tree, leaf_ms: &[String]) -> Result<miniscript::descriptor::TapTree<XOnlyPublicKey>, String> {
+    use miniscript::descriptor::TapTree;
+    match t {
+        Tree::Leaf(i) => {
+            let ms = miniscript::Miniscript::<XOnlyPublicKey, miniscript::Tap>::from_str(&leaf_ms[*i]).map_err(|e| e.to_string())?;
+            Ok(TapTree::leaf(ms))
+        }
+        Tree::Node(l, r) => {
+            let a = build_taptree(l, leaf_ms)?;
+            let b = build_taptree(r, leaf_ms)?;
+            TapTree::combine(a, b).map_err(|e| format!("combine: {}", e))
+        }
+    }
+}
+
 fn tree_str(t: &Tree, leaf_ms: &[String]) -> String {
     match t {
         Tree::Leaf(i) => leaf_ms[*i].clone(),
@@ -229,9 +317,9 @@ const OPS: u8 = 13;
 
 fn gen_scenario(seed: u64, iter: u64) -> Scenario {
     let mut r = Rng(mix(seed, iter));
-    let shape_id = r.below(6);
-    let shape = ["single-leaf", "balanced", "left-chain", "right-chain", "random", "key-only"][shape_id as usize];
-    let n_leaf_ids = 140;
+    let shape_id = r.below(8);
+    let shape = ["single-leaf", "balanced", "left-chain", "right-chain", "random", "key-only", "large-balanced", "large-random"][shape_id as usize];
+    let n_leaf_ids = if shape_id >= 6 { 420 } else { 140 };
     let mut leaf_ms = vec![];
     for i in 0..n_leaf_ids {
         let k = key(1000 + iter * 7 % 5 + i as u64);
@@ -246,7 +334,9 @@ fn gen_scenario(seed: u64, iter: u64) -> Scenario {
     let tree = if shape_id == 5 { None } else { Some(gen_tree(&mut r, shape_id, n_leaf_ids, &mut next)) };
     let n_threads = r.range(2, 4) as usize;
     let ops = (0..n_threads).map(|_| (0..r.range(2, 6)).map(|_| r.below(OPS as u64) as u8).collect()).collect();
-    Scenario { seed, iter, shape, leaf_ms, tree, internal: r.below(50), n_threads, ops, pct: iter % 2 == 1 }
+    let internal = r.below(50);
+    let built = r.below(3) == 0;
+    Scenario { seed, iter, shape, leaf_ms, tree, internal, n_threads, ops, pct: iter % 2 == 1, built }
 }
 
 struct Renamer;
@@ -456,6 +546,15 @@ fn scenario_closure(sc: Scenario) -> Result<impl Fn() + Send + Sync + 'static, S
             Descriptor::Tr(t) => t,
             _ => panic!("not tr"),
         };
+        let tr = if sc.built {
+            let tree = sc.tree.as_ref().map(|t| build_taptree(t, &sc.leaf_ms).expect("tree within the depth limit assembles"));
+            let b = Tr::new(key(sc.internal), tree).expect("Tr::new");
+            assert!(b == tr, "Tr assembled with TapTree::combine differs from the parsed descriptor");
+            assert_eq!(b.to_string(), tr.to_string(), "Tr assembled with TapTree::combine prints differently");
+            b
+        } else {
+            tr
+        };
         let fresh = Arc::new(match Descriptor::<XOnlyPublicKey>::from_str(&ex.text).unwrap() {
             Descriptor::Tr(t) => t,
             _ => unreachable!(),
@@ -486,14 +585,21 @@ fn scenario_closure(sc: Scenario) -> Result<impl Fn() + Send + Sync + 'static, S
 }
 
 fn scenario_json(sc: &Scenario, text: &str) -> Value {
-    json!({"seed": sc.seed, "iter": sc.iter, "shape": sc.shape, "threads": sc.n_threads, "ops": sc.ops, "scheduler": if sc.pct {"pct(depth 3)"} else {"random"}, "descriptor_len": text.len(), "descriptor_head": text.chars().take(160).collect::<String>() })
+    json!({"seed": sc.seed, "iter": sc.iter, "shape": sc.shape, "threads": sc.n_threads, "ops": sc.ops, "scheduler": if sc.pct {"pct(depth 3)"} else {"random"}, "built_with_combine": sc.built, "leaves": sc.tree.as_ref().map(count_leaves).unwrap_or(0), "descriptor_len": text.len(), "descriptor_head": text.chars().take(160).collect::<String>() })
 }
 
 const SCHEDULES_PER_SCENARIO: usize = 6;
 
+/// shuttle's default continuation stack (32 KiB) is too small for 400-leaf trees
+fn sim_config() -> Config {
+    let mut c = Config::new();
+    c.stack_size = 4 << 20;
+    c
+}
+
 fn run_scenario(sc: &Scenario, dir: Option<&str>) -> Result<usize, String> {
     let f = scenario_closure(sc.clone())?;
-    let mut cfg = Config::new();
+    let mut cfg = sim_config();
     cfg.failure_persistence = match dir {
         Some(d) => FailurePersistence::File(Some(d.into())),
         None => FailurePersistence::None,
@@ -538,7 +644,7 @@ fn main() {
             let results = std::sync::Mutex::new(std::collections::BTreeMap::new());
             std::thread::scope(|s| {
                 for _ in 0..workers {
-                    s.spawn(|| loop {
+                    std::thread::Builder::new().stack_size(64 << 20).spawn_scoped(s, || loop {
                         let i = next.fetch_add(1, std::sync::atomic::Ordering::SeqCst);
                         if i >= iters {
                             break;
@@ -546,7 +652,7 @@ fn main() {
                         let sc = gen_scenario(seed, i);
                         let r = run_scenario(&sc, None);
                         results.lock().unwrap().insert(i, (sc, r));
-                    });
+                    }).expect("spawn worker");
                 }
             });
             let results = results.into_inner().unwrap();
@@ -677,7 +783,7 @@ fn replay(path: &str) -> Result<(), String> {
     let r = match v["schedule_file"].as_str() {
         Some(sf) if std::path::Path::new(sf).exists() => catch_unwind(AssertUnwindSafe(|| {
             let sched = ReplayScheduler::new_from_file(sf).expect("schedule file");
-            Runner::new(sched, Config::new()).run(f);
+            Runner::new(sched, sim_config()).run(f);
         })),
         _ => {
             // no schedule recorded (the failure did not depend on it): re-run the seeded schedulers
